@@ -58,6 +58,18 @@ class C05(UdpCheck):
         if i % 25 == 3:
             return self.gen_stream(rng, tier, i)
         case = gen_traffic(rng, i, tier, retries=(-1,), cb_p=0.3)
+        if rng.random() < 0.3:
+            # other traffic: small unretried / best-effort messages queued in the same frame, right before a guaranteed one (they
+            # share its datagram), whose application callback misbehaves (raises): that is the application's problem, never
+            # a reason to lose the guaranteed message next to it
+            plan = []
+            for op in case["plan"]:
+                if op["op"] in ("send", "ssend") and rng.random() < 0.5:
+                    plan.append({"op": op["op"], "c": op["c"], "t": op["t"], "len": rng.choice([1, 8, 30]), "kind": 0,
+                                 "retry": rng.choice([0, 0, 1]), "cb": True, "cb_raises": rng.choice(["on_false", "always", "on_true"]),
+                                 "api": "send"})
+                plan.append(op)
+            case["plan"] = plan
         if rng.random() < 0.2:
             case["plan"].append({"op": "hgreet", "t": 0.0, "len": rng.choice([5, 300, 2500]), "retry": -1, "cb": False,
                                  "api": rng.choice(["send", "send_guaranteed"]), "kind": 0})
